@@ -166,7 +166,7 @@ def schemas_equal(a, b):
     return probs
 
 
-VARNAMES = [("schema", "type_map"), ("my_schema", "types_by_name")]
+VARNAMES = [("schema", "type_map"), ("my_schema", "types_by_name"), ("Undefined", "List")]  # the last pair: valid identifiers the emitted module also imports
 FORMATS = ["py", "graphql", "gql"]
 
 
@@ -222,7 +222,9 @@ def run_case(desc_i, def_i, flag_i, fmt_i, var_i, introspected: bool, after_clie
     return ("ok" if not probs else "mismatch"), probs
 
 
-def classify(introspected, status, probs) -> str:
+def classify(introspected, status, probs, var_i=0) -> str:
+    if var_i == 2 and status == "exec_failed":
+        return "C16-variable-name-shadows-import"
     if introspected and status == "mismatch":
         cats = {p[0] for p in probs if isinstance(p, tuple)}
         if cats and cats <= {"description", "specifiedBy", "repeatable", "input_deprecation", "deprecated_input_dropped", "print"}:
@@ -236,14 +238,14 @@ NFMT = int(os.environ.get("VERIF_C16_FORMATS", "2"))
 
 def _check(desc: int, dflt: int, flg: int, fmt: int, var: int, intro: bool) -> bool:
     a, b, c, e = pick(desc, 3), pick(dflt, len(DEFAULTS)), pick(flg, NFLAG), pick(fmt, NFMT)
-    f = pick(var, 2) if e == 0 else 0
+    f = pick(var, len(VARNAMES)) if e == 0 else 0
     it = True if intro else False
     with NoTracing():
         with opened_auditwall():
             status, probs = run_case(a, b, c, e, f, it)
         if status in ("ok", "invalid_case"):
             return True
-        kid = classify(it, status, probs)
+        kid = classify(it, status, probs, f)
     if kid:
         return known(kid)
     return False
